@@ -275,7 +275,7 @@ Definition slots_bytes (c : conn) (l : list slot) : str := concat (map (slot_byt
 
 (* connection::send_data *)
 Definition send_data (w : world) (c : conn) (slots : list slot) : world * list logitem * bool :=
-  if c_transmitting c then (set_undefined (upd w c), [LUndefined], false)
+  if c_transmitting c then (set_undefined w, [LUndefined], false)      (* undefined from here on: nothing of the state is meaningful *)
   else if c_connected c then
     let bytes := slots_bytes c slots in
     let c1 := mk_conn (c_id c) true (c_connected c) (c_disc_pending c) (c_shutdown_sent c)
@@ -312,6 +312,8 @@ Definition http_send_response (o : sopts) (w : world) (c : conn) : world * list 
   let r := with_version c (tx_response_of_code (rv_code (c_rx c)) []) in
   let c1 := set_tx c (c_rx c) (response_message r 0) (c_tx_body c) (c_keep c) in
   http_send o w c1 [SHeader] (rs_status r =? code_CONTINUE).
+
+Definition unsolicited : recipe := mk_recipe 408 0 1 [].
 
 Definition custom_reason : str := [67; 117; 115; 116; 111; 109].
 
@@ -693,7 +695,10 @@ Section Loop.
                                      (c_closed c) (c_read_pending c) (c_handshake_pending c) (c_tls_shutdown_pending c) (c_write c)
                                      (c_in_comms c) (c_in_http c) (c_rx c) (c_tx_header c) (c_tx_body c)
                                      rest (c_keep c) (c_chunks_left c) (c_last_due c)), [LNo id 5])
-            | [] => (w, [LNo id 4])
+            | [] =>
+                (* nothing to answer: the application speaks on its own (e.g. its request timer answers 408), whatever
+                   the receiver holds at that moment *)
+                if c_in_http c then app_respond o w c unsolicited else (w, [LNo id 4])
             end
         | None => (w, [LNo id 4])
         end
